@@ -14,8 +14,8 @@ RULE = ('cases: APDU.encode on headers of all eight types — flag bits x all 8x
         '{0,1,127,128,255} (full cross product for the small types, one random boundary assignment per flag/code combination for '
         'confirmed requests, a sample of the complex-ack product in the quick tier), each followed by APDU.decode of the octets produced '
         'and of every proper prefix of a sample; headers with missing (None), negative or >255 fields and invalid types (refusals); '
-        'APDU.decode of the empty string, every 1-octet string, every first octet x a boundary grid of second octets (all 65536 in the '
-        'thorough tier), random longer strings; the four table functions on a grid of capabilities (all of -5..2000 in the thorough '
+        'APDU.decode of the empty string, every 1-octet string, every first octet x a boundary grid of second octets (in the '
+        'thorough tier: all second octets under a confirmed-request first octet, every fifth otherwise), random longer strings; the four table functions on a grid of capabilities (all of -5..2000 in the thorough '
         'tier) and all code points -20..20.  non-trivial = an encode that yields octets or is refused, a decode of >= 1 octet, a table '
         'call; distinct by (operation, input); in the direct check: cross-product headers (distinct by construction), distinct random '
         '(header, payload) pairs, table arguments, distinct octet strings that decode to a header.  The direct check sweeps the full cross product of the property text on the implementation alone.')
@@ -402,7 +402,7 @@ def cases(rng, tier):
     for h in malformed_headers(rng):
         out.append(case_enc(h, rand_payload(rng), 'enc-malformed'))
     # truncations of valid encodings (short buffers -> DecodingError via PDUData.get)
-    for bs in rng.sample(encoded, min(len(encoded), 1500 if big else 100)):
+    for bs in rng.sample(encoded, min(len(encoded), 800 if big else 100)):
         for k in range(len(bs)):
             out.append(case_dec(bs[:k], 'dec-truncated'))
     # exhaustive short strings
@@ -411,12 +411,15 @@ def cases(rng, tier):
         out.append(case_dec(bytes([a]), 'dec-exh'))
     for a in range(256):
         if big:
-            seconds = range(256)
+            # every second octet for the types that look at it bit-wise (confirmed request: code octet),
+            # a stride for the others (the second octet is copied as invoke ID / service choice);
+            # the direct check decodes all 65 536 two-octet strings on the implementation
+            seconds = range(256) if a >> 4 == 0 else sorted(set(list(range(0, 256, 5)) + SECONDS))
         else:
             seconds = SECONDS + [rng.randrange(256)]
         for b in seconds:
             out.append(case_dec(bytes([a, b]), 'dec-exh'))
-    for _ in range(10000 if big else 600):
+    for _ in range(6000 if big else 600):
         n = rng.choice([3, 3, 4, 5, 6, 7, 10])
         bs = bytearray(rng.randrange(256) for _ in range(n))
         if rng.random() < 0.7:
@@ -683,6 +686,12 @@ def classify(failure):
     return None
 
 
+def _model(expr):
+    import core
+    got, err = core.coq_eval(COQ_IMPORTS, expr)
+    return got if got is not None else 'not evaluated: ' + err[-300:]
+
+
 def replay(payload):
     f = payload.get('failure')
     if not f:
@@ -697,12 +706,14 @@ def replay(payload):
     print('replay', f)
     if 'octets' in f and f.get('kind', '').startswith('decode') or f.get('op') == 'decode':
         print('implementation decode:', impl_decode(bytes.fromhex(f['octets'])))
+        print('model decode         :', _model('canon_dec (dec_apci %s)' % nlist(bytes.fromhex(f['octets']))))
         print('direct predicate:', check_arbitrary(bytes.fromhex(f['octets']))[0])
     elif 'header' in f:
         h = hdr(None)
         h.update(f['header'])
         p = bytes.fromhex(f.get('payload', ''))
         print('implementation encode:', impl_encode(h, p))
+        print('model encode         :', _model('canon_enc (enc_apdu %s %s)' % (coq_hdr(h), nlist(p))))
         try:
             print('clause 20.1 layout    :', [0] + spec20_1(h) + list(p))
         except Exception as e:
@@ -714,5 +725,7 @@ def replay(payload):
     elif 'arg' in f:
         for name in ('encode_max_segments_accepted', 'decode_max_segments_accepted',
                      'encode_max_apdu_length_accepted', 'decode_max_apdu_length_accepted'):
-            print(name, f['arg'], impl_table(name, f['arg']))
+            canon = 'canon_tbl_dec' if name.startswith('decode') else 'canon_tbl_enc'
+            print(name, f['arg'], 'implementation', impl_table(name, f['arg']),
+                  'model', _model('%s (%s %s)' % (canon, name, zarg(f['arg']))))
         print('direct predicate:', [x for x in check_tables()[0] if x['arg'] == f['arg']])
